@@ -68,10 +68,20 @@ class Roles:
         if not isinstance(e, dict) or depth > 12:
             return None
         k = e.get('k')
-        if k == 'Ref' and e.get('q') in cfg:
+        if k == 'Ref' and e.get('q') in (IOS_IN, IOS_OUT):
             return cfg[e['q']]
         if k == 'Ref' and e.get('dk') == 'local' and e.get('id') in self._file_locals():
             return self._eval_mode(self._file_locals()[e['id']], cfg, depth + 1)
+        if k == 'Call' and e.get('ck') == 'member' and e.get('calleeInRoot') and not e.get('args') and (e.get('callee') or '').startswith(FILE + '::'):
+            # bool isReadSession() const { return m_openMode == std::ios_base::in; } - a helper of File that only returns one expression
+            o = strip_all_casts(e.get('obj')) if e.get('obj') is not None else None
+            cands = [c for c in self.F.functions.get(e['callee'], []) if c['sig'] == e.get('csig') and c.get('body')]
+            if len(cands) == 1 and (o is None or (isinstance(o, dict) and o.get('k') == 'This')):
+                rets = [r for r in walk(cands[0]['body'], into_lambda=False) if r.get('k') == 'Return' and r.get('value') is not None]
+                stm = cands[0]['body'].get('body', []) if cands[0]['body'].get('k') == 'Compound' else []
+                if len(rets) == 1 and all(isinstance(x, dict) and x.get('k') in ('Return', 'Decl') for x in stm):
+                    return self._eval_mode(rets[0]['value'], cfg, depth + 1)
+            return None
         if k == 'Un' and e.get('op') == '!':
             v = self._eval_mode(e.get('sub'), cfg, depth + 1)
             return None if v is None else not v
@@ -88,11 +98,11 @@ class Roles:
             args, op = e['args'], e.get('op')
         if args:
             sides = [strip_all_casts(a) for a in args]
-            flags = [a for a in sides if isinstance(a, dict) and a.get('k') == 'Ref' and a.get('q') in cfg]
+            flags = [a for a in sides if isinstance(a, dict) and a.get('k') == 'Ref' and a.get('q') in (IOS_IN, IOS_OUT)]
             if op == '&' and len(flags) == 1:
                 return cfg[flags[0]['q']]                       # mode & in
             if op in ('==', '!=') and len(flags) == 1:
-                v = cfg[flags[0]['q']] and not any(cfg[q] for q in cfg if q != flags[0]['q'])   # mode == in
+                v = cfg[flags[0]['q']] and not any(cfg[q] for q in cfg if q != flags[0]['q'])   # mode == in  (false as soon as any other flag is set)
                 return v if op == '==' else not v
             if op in ('==', '!='):
                 zero = [a for a in sides if isinstance(a, dict) and a.get('v') == 0]
@@ -106,13 +116,17 @@ class Roles:
         """the mode a session must have for the condition to hold (one of in / out per session): 'read', 'write' or None.  Decided on the
         truth of the condition in a read session and in a write session, with File's single-assignment locals resolved - `if (reading)`,
         `if (!(reading || !writing))` and `if (mode & std::ios_base::in)` ... `else` say the same as the flag tests they stand for"""
-        vals = {'read': self._eval_mode(cond, {IOS_IN: True, IOS_OUT: False}), 'write': self._eval_mode(cond, {IOS_IN: False, IOS_OUT: True})}
+        vals = {'read': self._eval_mode(cond, {IOS_IN: True, IOS_OUT: False, self._X: False}),
+                'write': self._eval_mode(cond, {IOS_IN: False, IOS_OUT: True, self._X: False})}
         if all(v is None for v in vals.values()):
             return None
         possible = [m for m, v in vals.items() if v is not False]
         return possible[0] if len(possible) == 1 else None
 
-    _CFGS = (('read', {IOS_IN: True, IOS_OUT: False}), ('write', {IOS_IN: False, IOS_OUT: True}), ('none', {IOS_IN: False, IOS_OUT: False}))
+    _X = 'other-flags'    # binary, trunc, app, ate: legal companions of in / out that must not change the dispatch
+    _CFGS = (('read', {IOS_IN: True, IOS_OUT: False, _X: False}), ('read', {IOS_IN: True, IOS_OUT: False, _X: True}),
+             ('write', {IOS_IN: False, IOS_OUT: True, _X: False}), ('write', {IOS_IN: False, IOS_OUT: True, _X: True}),
+             ('none', {IOS_IN: False, IOS_OUT: False, _X: False}))
 
     def path_mode(self, evs):
         """the session mode a path belongs to, from ALL its mode branches, taken or not: 'read' / 'write' when only that kind of session
@@ -131,8 +145,8 @@ class Roles:
                 ok.append(name)
         if not ok:
             return None
-        real = [m for m in ok if m != 'none']
-        return real[0] if len(ok) == 1 and real else ('any' if len(ok) > 1 else 'any')
+        names = set(ok)
+        return ok[0] if len(names) == 1 and ok[0] != 'none' else 'any'
 
     def _find_threads(self):
         F = self.F
